@@ -277,7 +277,13 @@ def handleInt (op : String) (args : List String) (rhs : String) : Verdict :=
       let need := if op == "i.mul" then x.c + y.c else imax x.c y.c + 1
       let c := cap.getD need
       let v : Int := if op == "i.add" then x.int + y.int else if op == "i.sub" then x.int - y.int else x.int * y.int
-      if c < need ∧ !(al == "a2" && op != "i.mul") then mirror (rI (truncI v c) c) rhs
+      if c < need ∧ !(al == "a2" && op != "i.mul") then
+        -- truncating capacity (convention): the result is correct modulo 2^cap, magnitude below 2^cap
+        match parseCV rhs with
+        | some r =>
+          let m : Int := ((2 ^ c.toNat : Nat) : Int)
+          if r.c = c ∧ (r.v - v) % m = 0 ∧ r.v.natAbs < 2 ^ c.toNat then .ok else .diff (rI (truncI v c) c)
+        | none => .diff (rI (truncI v c) c)
       else classify op al (if al == "a2" && op != "i.mul" then "int-add-alias-rhs" else "int-output-alias") (rI v c) rhs
     | _, _, _ => .unsupported "args"
   | "i.div", [al, xs, ys] | "i.divvt", [al, xs, ys] | "i.ediv", [al, xs, ys] | "i.edivvt", [al, xs, ys] =>
